@@ -9,6 +9,7 @@ import (
 
 	"verif/harness/chkenum"
 	"verif/harness/clienth"
+	"verif/harness/compl"
 	"verif/harness/conc"
 	"verif/harness/fluentenum"
 	"verif/harness/flushenum"
@@ -44,6 +45,7 @@ var runners = map[string]runner{
 	"C13": {"model_checking", clienth.RunC13},
 	"C15": {"model_checking", reconc.Run},
 	"C17": {"model_checking", chkenum.Run},
+	"C19": {"model_checking", compl.Run},
 	"C18": {"model_checking", fluentenum.Run},
 	"C14": {"fault_enumeration", clienth.RunC14},
 	"C10": {"fault_enumeration", streams.RunC10},
@@ -56,6 +58,7 @@ var runners = map[string]runner{
 // children are the shard entry points: vworker -child <property> <tier> <part> <dumpfile>
 var children = map[string]func(rep *report.Report, tier, part string){
 	"C11": conc.ChildC11,
+	"C19": compl.Child,
 	"C13": clienth.ChildC13,
 	"C14": clienth.ChildC14,
 	"C06": streams.Child("C06"),
